@@ -6,6 +6,7 @@
 package router_address
 
 //@ loop parseTransportOptions 0: bounded 3
+//@ loop parseTransportOptions 1: bounded 3
 
 // C01 / C03: re-serialising an accepted RouterAddress reproduces exactly the
 // bytes that were consumed.
